@@ -78,7 +78,8 @@ PROPS = {
     },
     "C19": {
         "n": {"quick": 300, "thorough": 8000},
-        "cone": ["Bytes", "Generated", "Options", "OptionsRun", "OptionsLemmas"],
+        "cone": ["Bytes", "Generated", "Options", "OptionsRun", "OptionsLemmas", "DecideLang", "GeneratedSkel", "DecideLoops", "OptionsSrc"],
+        "diagnose": "From Scrapli Require Import Bytes OptionsSrc.\nFrom Coq Require Import String List.\nEval vm_compute in failing_options.\n",
         "rule": "random subsets + permutations + duplicates of all 45 option constructors with valid and invalid values through generic / network / "
                 "NETCONF NewDriver and through platform.NewPlatform with a generated YAML definition carrying an options block (every option name "
                 "the platform package recognises, values of the documented YAML type; plus ill-typed values as a separate stream) combined with user "
